@@ -174,51 +174,446 @@ Proof.
   rewrite !in_app_iff, IH, filter_In. tauto.
 Qed.
 
-(* ================= Part 2: Remove ================= *)
+(* ================= Part 1b: the tree ================= *)
 
-Lemma unwind_app img a b : unwind img (a ++ b) = unwind (unwind img a) b.
-Proof. revert img; induction a as [|[vi o] r IH]; intro img; cbn; auto. Qed.
+(* induction over the nested type *)
+Section FileInd.
+Variable P : file -> Prop.
+Hypothesis HP : forall f, Forall (Forall P) (f_kids f) -> P f.
+Fixpoint file_ind' (f : file) : P f :=
+  match f as f0 return P f0 with
+  | mkFile a b c d e k =>
+    HP (mkFile a b c d e k)
+       ((fix gv (vs : list (list file)) : Forall (Forall P) vs :=
+           match vs with
+           | [] => Forall_nil _
+           | v :: r =>
+             Forall_cons v
+               ((fix gf (fl : list file) : Forall P fl :=
+                   match fl with
+                   | [] => Forall_nil _
+                   | x :: q => Forall_cons x (file_ind' x) (gf q)
+                   end) v) (gv r)
+           end) k)
+  end.
+End FileInd.
 
-(* [new] (closures pushed while volume vi went from fs to fs') puts fs back *)
-Definition undoes (vi : nat) (new : undo) (fs fs' : list file) : Prop :=
-  forall img, nth_error img vi = Some fs' -> unwind img new = set_nth vi fs img.
+Lemma with_kids_eta f : with_kids f (f_kids f) = f.
+Proof. destruct f; reflexivity. Qed.
 
-Lemma undoes_refl vi fs : undoes vi [] fs fs.
-Proof. intros img H. cbn. symmetry. apply set_nth_same. exact H. Qed.
+Lemma with_kids_twice f k k' : with_kids (with_kids f k) k' = with_kids f k'.
+Proof. reflexivity. Qed.
 
-Lemma undoes_push vi new fs fs' fs'' :
-  undoes vi new fs fs' -> undoes vi ((vi, fs') :: new) fs fs''.
+Lemma flat_file_eq f : flat_file f = f :: flat (f_kids f).
+Proof. destruct f; reflexivity. Qed.
+
+Lemma fdepth_eq f : fdepth f = S (vdepth (f_kids f)).
+Proof. destruct f; reflexivity. Qed.
+
+Lemma flat_cons v vs : flat (v :: vs) = flat_vol v ++ flat vs.
+Proof. reflexivity. Qed.
+
+Lemma flat_vol_cons x v : flat_vol (x :: v) = flat_file x ++ flat_vol v.
+Proof. reflexivity. Qed.
+
+Lemma flat_vol_app a b : flat_vol (a ++ b) = flat_vol a ++ flat_vol b.
+Proof. unfold flat_vol. rewrite map_app, concat_app. reflexivity. Qed.
+
+Lemma in_flat_vol x v y : In x v -> In y (flat_file x) -> In y (flat_vol v).
 Proof.
-  intros H img Hn. cbn.
-  assert (Hl : (vi < length img)%nat) by (apply nth_error_Some; congruence).
-  rewrite H by (apply nth_error_set_nth; exact Hl).
-  apply set_nth_twice.
+  intros Hx Hy. unfold flat_vol. apply in_concat. exists (flat_file x). split; [apply in_map; exact Hx|exact Hy].
 Qed.
 
-(* [inner], any variant: what it pushes restores the list it started from, and
-   it does not let (length - index) grow *)
-Lemma inner_inv var pol pad vi ms : forall i fs u nx i' fs' u' nx' new0 fs0,
-  inner var pol pad vi ms i fs u nx = Ok (i', fs', u', nx') ->
-  undoes vi new0 fs0 fs ->
-  exists new, u' = new ++ u /\ undoes vi (new ++ new0) fs0 fs' /\
-              zlen fs' - i' <= zlen fs - i.
+Lemma in_flat v vs y : In v vs -> In y (flat_vol v) -> In y (flat vs).
 Proof.
-  induction ms as [|m ms IH]; intros i fs u nx i' fs' u' nx' new0 fs0 H U; cbn [inner] in H.
-  - injection H as <- <- <- <-. exists []. cbn. split; [reflexivity|]. split; [exact U|lia].
+  intros Hv Hy. unfold flat. apply in_concat. exists (flat_vol v). split; [apply in_map; exact Hv|exact Hy].
+Qed.
+
+Lemma in_flat_self x v vs : In x v -> In v vs -> In x (flat vs).
+Proof.
+  intros Hx Hv. eapply in_flat; [exact Hv|]. eapply in_flat_vol; [exact Hx|].
+  rewrite flat_file_eq. left. reflexivity.
+Qed.
+
+Lemma in_flat_kids x v vs y : In x v -> In v vs -> In y (flat (f_kids x)) -> In y (flat vs).
+Proof.
+  intros Hx Hv Hy. eapply in_flat; [exact Hv|]. eapply in_flat_vol; [exact Hx|].
+  rewrite flat_file_eq. right. exact Hy.
+Qed.
+
+Lemma vdepth_cons v vs :
+  vdepth (v :: vs) = Nat.max (fold_right (fun x m' => Nat.max (fdepth x) m') O v) (vdepth vs).
+Proof. reflexivity. Qed.
+
+Lemma fdepth_le_vol x v : In x v -> (fdepth x <= fold_right (fun x m' => Nat.max (fdepth x) m') O v)%nat.
+Proof.
+  induction v as [|y r IH]; intro H; [destruct H|]. cbn [fold_right].
+  destruct H as [->|H]; [lia|]. specialize (IH H). lia.
+Qed.
+
+Lemma fdepth_le x v vs : In x v -> In v vs -> (fdepth x <= vdepth vs)%nat.
+Proof.
+  intros Hx Hv. induction vs as [|w r IH]; [destruct Hv|]. rewrite vdepth_cons.
+  destruct Hv as [->|Hv].
+  - pose proof (fdepth_le_vol x v Hx). lia.
+  - specialize (IH Hv). lia.
+Qed.
+
+Lemma map_nth_mid {A} (pre : list A) y post g :
+  map_nth (length pre) g (pre ++ y :: post) = pre ++ g y :: post.
+Proof. induction pre as [|z r IH]; cbn; [reflexivity|]. f_equal. exact IH. Qed.
+
+Lemma in_set_nth {A} n (x y : A) l : In y (set_nth n x l) -> y = x \/ In y l.
+Proof.
+  revert n; induction l as [|z r IH]; intros [|n] H; cbn in *; try tauto.
+  - destruct H as [<-|H]; auto.
+  - destruct H as [<-|H]; auto. destruct (IH _ H); auto.
+Qed.
+
+(* header-only predicates *)
+Definition hdr_inv (K : file -> bool) : Prop := forall f k, K (with_kids f k) = K f.
+
+Definition pv (K : file -> bool) (v : volume) : volume := filter K (map (prune_file K) v).
+
+Lemma prune_file_eq K f : prune_file K f = with_kids f (prune K (f_kids f)).
+Proof. destruct f; reflexivity. Qed.
+
+Lemma prune_eq K vs : prune K vs = map (pv K) vs.
+Proof. reflexivity. Qed.
+
+Lemma hdr_prune K K' f : hdr_inv K -> K (prune_file K' f) = K f.
+Proof. intro H. rewrite prune_file_eq. apply H. Qed.
+
+Lemma filter_map_hdr {A} (K : A -> bool) (g : A -> A) l :
+  (forall x, K (g x) = K x) -> filter K (map g l) = map g (filter K l).
+Proof.
+  intro H. induction l as [|x r IH]; cbn; [reflexivity|]. rewrite H.
+  destruct (K x); cbn; rewrite IH; reflexivity.
+Qed.
+
+Lemma pv_alt K v : hdr_inv K -> pv K v = map (prune_file K) (filter K v).
+Proof. intro H. unfold pv. apply filter_map_hdr. intro x. apply hdr_prune. exact H. Qed.
+
+Lemma prune_file_ext K1 K2 : hdr_inv K1 -> hdr_inv K2 -> forall f,
+  (forall x, In x (flat_file f) -> K1 x = K2 x) -> prune_file K1 f = prune_file K2 f.
+Proof.
+  intros H1 H2. apply (file_ind' (fun f => (forall x, In x (flat_file f) -> K1 x = K2 x) ->
+                                            prune_file K1 f = prune_file K2 f)).
+  intros f IH HK. rewrite !prune_file_eq. f_equal. rewrite flat_file_eq in HK.
+  assert (HK' : forall x, In x (flat (f_kids f)) -> K1 x = K2 x) by (intros; apply HK; right; assumption).
+  clear HK. induction (f_kids f) as [|v r IHr]; [reflexivity|].
+  inversion IH as [|? ? IHv IHr']; subst. cbn [prune map]. f_equal.
+  - assert (Hv : forall x, In x (flat_vol v) -> K1 x = K2 x)
+      by (intros x Hx; apply HK'; rewrite flat_cons; apply in_or_app; left; exact Hx).
+    clear - H1 H2 IHv Hv. induction v as [|x q IHq]; [reflexivity|].
+    inversion IHv as [|? ? IHx IHq']; subst. cbn [map filter].
+    assert (Ex : prune_file K1 x = prune_file K2 x).
+    { apply IHx. intros y Hy. apply Hv. rewrite flat_vol_cons. apply in_or_app. left. exact Hy. }
+    rewrite Ex. rewrite (hdr_prune K1 K2 x H1), (hdr_prune K2 K2 x H2).
+    rewrite (Hv x) by (rewrite flat_vol_cons, flat_file_eq; left; reflexivity).
+    rewrite IHq; [reflexivity|exact IHq'|].
+    intros y Hy. apply Hv. rewrite flat_vol_cons. apply in_or_app. right. exact Hy.
+  - apply IHr; [exact IHr'|]. intros x Hx. apply HK'. rewrite flat_cons. apply in_or_app. right. exact Hx.
+Qed.
+
+Lemma pv_ext K1 K2 v : hdr_inv K1 -> hdr_inv K2 ->
+  (forall x, In x (flat_vol v) -> K1 x = K2 x) -> pv K1 v = pv K2 v.
+Proof.
+  intros H1 H2 Hv. unfold pv. induction v as [|x q IH]; [reflexivity|]. cbn [map filter].
+  assert (Ex : prune_file K1 x = prune_file K2 x).
+  { apply prune_file_ext; auto. intros y Hy. apply Hv. rewrite flat_vol_cons. apply in_or_app. left. exact Hy. }
+  rewrite Ex, (hdr_prune K1 K2 x H1), (hdr_prune K2 K2 x H2).
+  rewrite (Hv x) by (rewrite flat_vol_cons, flat_file_eq; left; reflexivity).
+  rewrite IH; [reflexivity|]. intros y Hy. apply Hv. rewrite flat_vol_cons. apply in_or_app. right. exact Hy.
+Qed.
+
+Lemma prune_ext K1 K2 vs : hdr_inv K1 -> hdr_inv K2 ->
+  (forall x, In x (flat vs) -> K1 x = K2 x) -> prune K1 vs = prune K2 vs.
+Proof.
+  intros H1 H2 H. induction vs as [|v r IH]; [reflexivity|]. cbn [prune map]. f_equal.
+  - apply (pv_ext K1 K2 v H1 H2). intros x Hx. apply H. rewrite flat_cons. apply in_or_app. left. exact Hx.
+  - apply IH. intros x Hx. apply H. rewrite flat_cons. apply in_or_app. right. exact Hx.
+Qed.
+
+Lemma prune_file_all K : (forall x, K x = true) -> forall f, prune_file K f = f.
+Proof.
+  intro HK. apply (file_ind' (fun f => prune_file K f = f)). intros f IH.
+  rewrite prune_file_eq.
+  assert (E : prune K (f_kids f) = f_kids f).
+  { induction (f_kids f) as [|v r IHr]; [reflexivity|]. inversion IH as [|? ? IHv IHr']; subst.
+    cbn [prune map]. f_equal; [|apply IHr; exact IHr'].
+    clear - HK IHv. induction v as [|x q IHq]; [reflexivity|]. inversion IHv as [|? ? Hx Hq]; subst.
+    cbn [map filter]. rewrite HK, Hx. f_equal. apply IHq. exact Hq. }
+  rewrite E. apply with_kids_eta.
+Qed.
+
+Lemma prune_all K vs : (forall x, K x = true) -> prune K vs = vs.
+Proof.
+  intro HK. induction vs as [|v r IH]; [reflexivity|]. cbn [prune map]. f_equal; [|exact IH].
+  induction v as [|x q IHq]; [reflexivity|]. cbn [map filter]. rewrite HK, (prune_file_all K HK x).
+  f_equal. exact IHq.
+Qed.
+
+Lemma prune_file_comp P Q : hdr_inv P -> hdr_inv Q -> forall f,
+  prune_file P (prune_file Q f) = prune_file (fun x => Q x && P x) f.
+Proof.
+  intros HP HQ. apply (file_ind' (fun f => prune_file P (prune_file Q f) = prune_file (fun x => Q x && P x) f)).
+  intros f IH. rewrite (prune_file_eq Q f), (prune_file_eq P), (prune_file_eq _ f).
+  cbn [f_kids with_kids]. unfold with_kids at 1. cbn [f_id f_guid f_type f_size f_ui with_kids].
+  unfold with_kids. f_equal.
+  induction (f_kids f) as [|v r IHr]; [reflexivity|]. inversion IH as [|? ? IHv IHr']; subst.
+  cbn [prune map]. f_equal; [|apply IHr; exact IHr'].
+  rewrite (filter_map_hdr Q (prune_file Q) v) by (intro x; apply hdr_prune; exact HQ).
+  rewrite map_map.
+  rewrite (filter_map_hdr P _ (filter Q v))
+    by (intro x; rewrite (hdr_prune P P _ HP); apply hdr_prune; exact HP).
+  rewrite filter_filter.
+  rewrite (filter_map_hdr (fun x => Q x && P x) (prune_file (fun x => Q x && P x)) v).
+  2:{ intro x. rewrite !prune_file_eq. rewrite HP, HQ. reflexivity. }
+  apply map_ext_in. intros x Hx. apply filter_In in Hx. destruct Hx as [Hx _].
+  rewrite Forall_forall in IHv. apply IHv. exact Hx.
+Qed.
+
+Lemma prune_comp P Q vs : hdr_inv P -> hdr_inv Q ->
+  prune P (prune Q vs) = prune (fun x => Q x && P x) vs.
+Proof.
+  intros HP HQ. induction vs as [|v r IH]; [reflexivity|]. cbn [prune map]. f_equal; [|exact IH].
+  rewrite (filter_map_hdr Q (prune_file Q) v) by (intro x; apply hdr_prune; exact HQ).
+  rewrite map_map.
+  rewrite (filter_map_hdr P _ (filter Q v))
+    by (intro x; rewrite (hdr_prune P P _ HP); apply hdr_prune; exact HP).
+  rewrite filter_filter.
+  rewrite (filter_map_hdr (fun x => Q x && P x) (prune_file (fun x => Q x && P x)) v).
+  2:{ intro x. rewrite !prune_file_eq. rewrite HP, HQ. reflexivity. }
+  apply map_ext. intro x. apply prune_file_comp; assumption.
+Qed.
+
+(* ---- what pruning does to the pre-order listing ---- *)
+
+Inductive subseq {A} : list A -> list A -> Prop :=
+| ss_nil : subseq [] []
+| ss_keep x a b : subseq a b -> subseq (x :: a) (x :: b)
+| ss_skip x a b : subseq a b -> subseq a (x :: b).
+
+Lemma subseq_refl {A} (l : list A) : subseq l l.
+Proof. induction l; constructor; auto. Qed.
+
+Lemma subseq_nil_l {A} (l : list A) : subseq [] l.
+Proof. induction l; constructor; auto. Qed.
+
+Lemma subseq_app {A} (a a' b b' : list A) : subseq a a' -> subseq b b' -> subseq (a ++ b) (a' ++ b').
+Proof. intros H1 H2. induction H1; cbn; try constructor; auto. Qed.
+
+Lemma subseq_skip_app {A} (a b c : list A) : subseq a b -> subseq a (c ++ b).
+Proof. intro H. induction c; cbn; [exact H|constructor; exact IHc]. Qed.
+
+Lemma subseq_in {A} (a b : list A) x : subseq a b -> In x a -> In x b.
+Proof.
+  intro H. induction H; cbn; intro Hx.
+  - exact Hx.
+  - destruct Hx; auto.
+  - auto.
+Qed.
+
+Lemma subseq_NoDup {A} (a b : list A) : subseq a b -> NoDup b -> NoDup a.
+Proof.
+  intro H. induction H; intro Hn; [constructor| |].
+  - inversion Hn; subst. constructor; auto. intro Hx. eapply subseq_in in Hx; eauto.
+  - inversion Hn; subst. auto.
+Qed.
+
+Lemma ids_prune_file K : hdr_inv K -> forall f,
+  subseq (map f_id (flat_file (prune_file K f))) (map f_id (flat_file f)).
+Proof.
+  intro HK. apply (file_ind' (fun f => subseq (map f_id (flat_file (prune_file K f))) (map f_id (flat_file f)))).
+  intros f IH. rewrite prune_file_eq, !flat_file_eq. cbn [map f_kids with_kids f_id].
+  apply ss_keep.
+  induction (f_kids f) as [|v r IHr]; [constructor|]. inversion IH as [|? ? IHv IHr']; subst.
+  cbn [prune map]. rewrite !flat_cons, !map_app. apply subseq_app; [|apply IHr; exact IHr'].
+  clear - HK IHv. induction v as [|x q IHq]; [constructor|]. inversion IHv as [|? ? Hx Hq]; subst.
+  cbn [map filter]. rewrite flat_vol_cons, map_app.
+  destruct (K (prune_file K x)).
+  - rewrite flat_vol_cons, map_app. apply subseq_app; [exact Hx|apply IHq; exact Hq].
+  - apply subseq_skip_app. apply IHq. exact Hq.
+Qed.
+
+Lemma ids_prune K vs : hdr_inv K -> subseq (map f_id (flat (prune K vs))) (map f_id (flat vs)).
+Proof.
+  intro HK. induction vs as [|v r IH]; [constructor|]. cbn [prune map].
+  rewrite !flat_cons, !map_app. apply subseq_app; [|exact IH].
+  induction v as [|x q IHq]; [constructor|]. cbn [map filter]. rewrite flat_vol_cons, map_app.
+  destruct (K (prune_file K x)).
+  - rewrite flat_vol_cons, map_app. apply subseq_app; [apply ids_prune_file; exact HK|exact IHq].
+  - apply subseq_skip_app. exact IHq.
+Qed.
+
+(* a file of the pruned tree is a file of the tree, with pruned kids *)
+Lemma flat_prune_file_in K : forall f y, In y (flat_file (prune_file K f)) ->
+  exists y0, In y0 (flat_file f) /\ y = prune_file K y0.
+Proof.
+  apply (file_ind' (fun f => forall y, In y (flat_file (prune_file K f)) ->
+     exists y0, In y0 (flat_file f) /\ y = prune_file K y0)).
+  intros f IH y Hy. rewrite flat_file_eq in Hy. destruct Hy as [<-|Hy].
+  - exists f. rewrite flat_file_eq. split; [left; reflexivity|reflexivity].
+  - rewrite prune_file_eq in Hy. cbn [f_kids with_kids] in Hy.
+    assert (G : exists y0, In y0 (flat (f_kids f)) /\ y = prune_file K y0).
+    { clear - IH Hy. induction (f_kids f) as [|v r IHr]; [destruct Hy|].
+      inversion IH as [|? ? IHv IHr']; subst. cbn [prune map] in Hy. rewrite flat_cons in Hy.
+      apply in_app_or in Hy. destruct Hy as [Hy|Hy].
+      - assert (Gv : exists y0, In y0 (flat_vol v) /\ y = prune_file K y0).
+        { clear - IHv Hy. induction v as [|x q IHq]; [destruct Hy|].
+          inversion IHv as [|? ? Hx Hq]; subst. cbn [map filter] in Hy.
+          assert (Hy' : In y (flat_file (prune_file K x)) \/
+                        In y (flat_vol (filter K (map (prune_file K) q)))).
+          { destruct (K (prune_file K x)); [|right; exact Hy].
+            rewrite flat_vol_cons in Hy. apply in_app_or in Hy. exact Hy. }
+          destruct Hy' as [Hy'|Hy'].
+          - destruct (Hx y Hy') as (y0 & H0 & E). exists y0. rewrite flat_vol_cons.
+            split; [apply in_or_app; left; exact H0|exact E].
+          - destruct (IHq Hy' Hq) as (y0 & H0 & E). exists y0. rewrite flat_vol_cons.
+            split; [apply in_or_app; right; exact H0|exact E]. }
+        destruct Gv as (y0 & H0 & E). exists y0. rewrite flat_cons.
+        split; [apply in_or_app; left; exact H0|exact E].
+      - destruct (IHr IHr' Hy) as (y0 & H0 & E). exists y0. rewrite flat_cons.
+        split; [apply in_or_app; right; exact H0|exact E]. }
+    destruct G as (y0 & H0 & E). exists y0. rewrite flat_file_eq. split; [right; exact H0|exact E].
+Qed.
+
+Lemma flat_prune_in K vs y : In y (flat (prune K vs)) ->
+  exists y0, In y0 (flat vs) /\ y = prune_file K y0.
+Proof.
+  induction vs as [|v r IH]; intro Hy; [destruct Hy|]. cbn [prune map] in Hy. rewrite flat_cons in Hy.
+  apply in_app_or in Hy. destruct Hy as [Hy|Hy].
+  - assert (Gv : exists y0, In y0 (flat_vol v) /\ y = prune_file K y0).
+    { clear - Hy. induction v as [|x q IHq]; [destruct Hy|]. cbn [map filter] in Hy.
+      assert (Hy' : In y (flat_file (prune_file K x)) \/
+                    In y (flat_vol (filter K (map (prune_file K) q)))).
+      { destruct (K (prune_file K x)); [|right; exact Hy].
+        rewrite flat_vol_cons in Hy. apply in_app_or in Hy. exact Hy. }
+      destruct Hy' as [Hy'|Hy'].
+      - destruct (flat_prune_file_in K x y Hy') as (y0 & H0 & E). exists y0. rewrite flat_vol_cons.
+        split; [apply in_or_app; left; exact H0|exact E].
+      - destruct (IHq Hy') as (y0 & H0 & E). exists y0. rewrite flat_vol_cons.
+        split; [apply in_or_app; right; exact H0|exact E]. }
+    destruct Gv as (y0 & H0 & E). exists y0. rewrite flat_cons.
+    split; [apply in_or_app; left; exact H0|exact E].
+  - destruct (IH Hy) as (y0 & H0 & E). exists y0. rewrite flat_cons.
+    split; [apply in_or_app; right; exact H0|exact E].
+Qed.
+
+(* every file left in a pruned tree passes the test *)
+Lemma flat_pv_keep K v y :
+  (forall x, In x v -> In y (flat (f_kids (prune_file K x))) -> K y = true) ->
+  In y (flat_vol (pv K v)) -> K y = true.
+Proof.
+  unfold pv. induction v as [|x q IHq]; intros Hk Hy; [destruct Hy|]. cbn [map filter] in Hy.
+  destruct (K (prune_file K x)) eqn:Ex.
+  - rewrite flat_vol_cons in Hy. apply in_app_or in Hy. destruct Hy as [Hy|Hy].
+    + rewrite flat_file_eq in Hy. destruct Hy as [<-|Hy]; [exact Ex|].
+      apply (Hk x); [left; reflexivity|exact Hy].
+    + apply IHq; [|exact Hy]. intros x' Hx'. apply Hk. right. exact Hx'.
+  - apply IHq; [|exact Hy]. intros x' Hx'. apply Hk. right. exact Hx'.
+Qed.
+
+Lemma flat_prune_file_keep K : forall f y, In y (flat (f_kids (prune_file K f))) -> K y = true.
+Proof.
+  apply (file_ind' (fun f => forall y, In y (flat (f_kids (prune_file K f))) -> K y = true)).
+  intros f IH y Hy. rewrite prune_file_eq in Hy. cbn [f_kids with_kids] in Hy.
+  induction (f_kids f) as [|v r IHr]; [destruct Hy|]. inversion IH as [|? ? IHv IHr']; subst.
+  cbn [prune map] in Hy. rewrite flat_cons in Hy. apply in_app_or in Hy. destruct Hy as [Hy|Hy].
+  - apply (flat_pv_keep K v y); [|exact Hy]. rewrite Forall_forall in IHv. intros x Hx. apply IHv. exact Hx.
+  - apply IHr; assumption.
+Qed.
+
+Lemma flat_prune_keep K vs y : In y (flat (prune K vs)) -> K y = true.
+Proof.
+  induction vs as [|v r IH]; intro Hy; [destruct Hy|]. cbn [prune map] in Hy. rewrite flat_cons in Hy.
+  apply in_app_or in Hy. destruct Hy as [Hy|Hy]; [|apply IH; exact Hy].
+  apply (flat_pv_keep K v y); [|exact Hy]. intros x _. apply flat_prune_file_keep.
+Qed.
+
+(* ================= Part 2: Remove ================= *)
+
+(* what the saved lists of one volume put back: the oldest one *)
+Fixpoint lunwind (cur : list file) (origs : list (list file)) : list file :=
+  match origs with
+  | [] => cur
+  | o :: r => lunwind o r
+  end.
+
+(* closures addressed relative to a volume: [] is the volume itself *)
+Definition fset (a : addr) (o : list file) (fs : list file) : list file :=
+  match a with
+  | [] => o
+  | fi :: a2 => map_nth fi (fun f => with_kids f (set_at a2 o (f_kids f))) fs
+  end.
+
+Fixpoint funwind (fs : list file) (u : undo) : list file :=
+  match u with
+  | [] => fs
+  | (a, o) :: r => funwind (fset a o fs) r
+  end.
+
+Lemma set_at_cons vi a1 o vs : set_at (vi :: a1) o vs = map_nth vi (fset a1 o) vs.
+Proof. destruct a1; reflexivity. Qed.
+
+Lemma unwind_app img a b : unwind img (a ++ b) = unwind (unwind img a) b.
+Proof. revert img; induction a as [|[x o] r IH]; intro img; cbn [app unwind]; auto. Qed.
+
+Lemma funwind_app fs a b : funwind fs (a ++ b) = funwind (funwind fs a) b.
+Proof. revert fs; induction a as [|[x o] r IH]; intro fs; cbn [app funwind]; auto. Qed.
+
+Lemma unwind_pfx : forall u pre fs post,
+  unwind (pre ++ fs :: post) (map (pfx (length pre)) u) = pre ++ funwind fs u :: post.
+Proof.
+  induction u as [|[a o] r IH]; intros pre fs post; [reflexivity|].
+  cbn [map pfx fst snd unwind funwind]. rewrite set_at_cons, map_nth_mid. apply IH.
+Qed.
+
+Lemma funwind_pfx : forall u pre f post,
+  funwind (pre ++ f :: post) (map (pfx (length pre)) u) =
+  pre ++ with_kids f (unwind (f_kids f) u) :: post.
+Proof.
+  induction u as [|[a o] r IH]; intros pre f post.
+  - cbn. rewrite with_kids_eta. reflexivity.
+  - cbn [map pfx fst snd unwind funwind fset]. rewrite map_nth_mid. rewrite IH. reflexivity.
+Qed.
+
+Lemma funwind_here fs origs : funwind fs (map (fun o => ([], o)) origs) = lunwind fs origs.
+Proof. revert fs; induction origs as [|o r IH]; intro fs; [reflexivity|]. cbn. apply IH. Qed.
+
+Lemma create_pad_kids pol size nx pf : create_pad pol size nx = Ok pf -> f_kids pf = [].
+Proof.
+  unfold create_pad. destruct (size <? _); [discriminate|].
+  destruct (pol =? 255); [intro H; injection H as <-; reflexivity|].
+  destruct (pol =? 0); [intro H; injection H as <-; reflexivity|discriminate].
+Qed.
+
+(* [inner], any variant: the saved lists put back the list it started from,
+   (length - index) does not grow, no file with nested volumes is invented *)
+Lemma inner_inv var pol pad ms : forall i fs u nx i' fs' u' nx',
+  inner var pol pad ms i fs u nx = Ok (i', fs', u', nx') ->
+  exists new, u' = new ++ u /\ (forall new0, lunwind fs' (new ++ new0) = lunwind fs new0) /\
+              zlen fs' - i' <= zlen fs - i /\
+              (forall x, In x fs' -> In x fs \/ f_kids x = []).
+Proof.
+  induction ms as [|m ms IH]; intros i fs u nx i' fs' u' nx' H; cbn [inner] in H.
+  - injection H as <- <- <- <-. exists []. cbn. repeat split; auto; lia.
   - destruct (idx i fs) as [x|] eqn:Ex; cbn in H; [|discriminate].
     destruct (f_id x =? m) eqn:Em.
-    + (* match *)
-      destruct (pad || (f_type x =? fv_filetype_peim)) eqn:Ep.
+    + destruct (pad || (f_type x =? fv_filetype_peim)) eqn:Ep.
       * destruct (create_pad pol (f_size x) nx) as [pf| | |] eqn:Ec; cbn in H; try discriminate.
         assert (Hlen : zlen (set_nth (Z.to_nat i) pf fs) = zlen fs)
           by (unfold zlen; rewrite set_nth_length; reflexivity).
+        assert (Hin : forall y, In y (set_nth (Z.to_nat i) pf fs) -> In y fs \/ f_kids y = []).
+        { intros y Hy. apply in_set_nth in Hy. destruct Hy as [->|Hy]; [right|left; exact Hy].
+          eapply create_pad_kids; eauto. }
         destruct (v_index var).
-        -- injection H as <- <- <- <-. exists [(vi, fs)]. cbn. split; [reflexivity|].
-           split; [apply undoes_push; exact U|lia].
-        -- eapply IH with (new0 := (vi, fs) :: new0) (fs0 := fs0) in H;
-             [|apply undoes_push; exact U].
-           destruct H as (new & -> & U' & Hm). exists (new ++ [(vi, fs)]).
-           rewrite <- !app_assoc. cbn. split; [reflexivity|]. split; [exact U'|lia].
+        -- injection H as <- <- <- <-. exists [fs]. cbn. repeat split; auto; lia.
+        -- apply IH in H. destruct H as (new & -> & U' & Hm & Hf). exists (new ++ [fs]).
+           rewrite <- !app_assoc. cbn. split; [reflexivity|]. split.
+           { intro new0. rewrite <- app_assoc. cbn. rewrite U'. reflexivity. }
+           split; [lia|]. intros y Hy. destruct (Hf y Hy) as [Hy'|Hy']; auto.
       * destruct (slc 0 i fs) as [a|] eqn:Ea; cbn in H; [|discriminate].
         destruct (slc (i + 1) (zlen fs) fs) as [b|] eqn:Eb; cbn in H; [|discriminate].
         apply idx_some_split in Ex. destruct Ex as (a0 & b0 & -> & Hi).
@@ -226,18 +621,19 @@ Proof.
         rewrite (slc_suffix a0 x b0 i Hi) in Eb. injection Eb as <-.
         assert (Hlen : zlen (a0 ++ b0) = zlen (a0 ++ x :: b0) - 1)
           by (rewrite !zlen_app, zlen_cons; lia).
+        assert (Hin : forall y, In y (a0 ++ b0) -> In y (a0 ++ x :: b0) \/ f_kids y = []).
+        { intros y Hy. left. apply in_app_or in Hy. apply in_or_app. destruct Hy; [left|right; right]; auto. }
         destruct (v_index var).
-        -- injection H as <- <- <- <-. exists [(vi, a0 ++ x :: b0)]. cbn. split; [reflexivity|].
-           split; [apply undoes_push; exact U|lia].
-        -- eapply IH with (new0 := (vi, a0 ++ x :: b0) :: new0) (fs0 := fs0) in H;
-             [|apply undoes_push; exact U].
-           destruct H as (new & -> & U' & Hm). exists (new ++ [(vi, a0 ++ x :: b0)]).
-           rewrite <- !app_assoc. cbn. split; [reflexivity|]. split; [exact U'|lia].
-    + eapply IH in H; [|exact U]. exact H.
+        -- injection H as <- <- <- <-. exists [a0 ++ x :: b0]. cbn. repeat split; auto; lia.
+        -- apply IH in H. destruct H as (new & -> & U' & Hm & Hf). exists (new ++ [a0 ++ x :: b0]).
+           rewrite <- !app_assoc. cbn. split; [reflexivity|]. split.
+           { intro new0. rewrite <- app_assoc. cbn. rewrite U'. reflexivity. }
+           split; [lia|]. intros y Hy. destruct (Hf y Hy) as [Hy'|Hy']; auto.
+    + apply IH in H. exact H.
 Qed.
 
-Lemma inner_no_fuel var pol pad vi ms : forall i fs u nx,
-  inner var pol pad vi ms i fs u nx <> Fuel.
+Lemma inner_no_fuel var pol pad ms : forall i fs u nx,
+  inner var pol pad ms i fs u nx <> Fuel.
 Proof.
   induction ms as [|m ms IH]; intros i fs u nx; cbn [inner]; [discriminate|].
   destruct (idx i fs) as [x|]; cbn; [|discriminate].
@@ -251,95 +647,164 @@ Proof.
     destruct (v_index var); [discriminate|apply IH].
 Qed.
 
-Lemma outer_inv var pol pad vi ms : forall fuel i fs u nx fs' u' nx' new0 fs0,
-  outer fuel var pol pad vi ms i fs u nx = Ok (fs', u', nx') ->
-  undoes vi new0 fs0 fs ->
-  exists new, u' = new ++ u /\ undoes vi (new ++ new0) fs0 fs'.
+Lemma outer_inv var pol pad ms : forall fuel i fs u nx fs' u' nx',
+  outer fuel var pol pad ms i fs u nx = Ok (fs', u', nx') ->
+  exists new, u' = new ++ u /\ (forall new0, lunwind fs' (new ++ new0) = lunwind fs new0) /\
+              (forall x, In x fs' -> In x fs \/ f_kids x = []).
 Proof.
-  induction fuel as [|k IH]; intros i fs u nx fs' u' nx' new0 fs0 H U; cbn [outer] in H; [discriminate|].
+  induction fuel as [|k IH]; intros i fs u nx fs' u' nx' H; cbn [outer] in H; [discriminate|].
   destruct (i <? zlen fs).
-  - destruct (inner var pol pad vi ms i fs u nx) as [[[[i1 fs1] u1] nx1]| | |] eqn:Ei; cbn in H; try discriminate.
-    destruct (inner_inv _ _ _ _ _ _ _ _ _ _ _ _ _ _ _ Ei U) as (new1 & -> & U1 & _).
-    destruct (IH _ _ _ _ _ _ _ _ _ H U1) as (new2 & -> & U2).
-    exists (new2 ++ new1). rewrite <- !app_assoc. split; [reflexivity|exact U2].
-  - injection H as <- <- <-. exists []. cbn. split; [reflexivity|exact U].
+  - destruct (inner var pol pad ms i fs u nx) as [[[[i1 fs1] u1] nx1]| | |] eqn:Ei; cbn in H; try discriminate.
+    destruct (inner_inv _ _ _ _ _ _ _ _ _ _ _ _ Ei) as (new1 & -> & U1 & _ & F1).
+    destruct (IH _ _ _ _ _ _ _ H) as (new2 & -> & U2 & F2).
+    exists (new2 ++ new1). rewrite <- !app_assoc. split; [reflexivity|]. split.
+    + intro new0. rewrite <- app_assoc, U2, U1. reflexivity.
+    + intros x Hx. destruct (F2 x Hx) as [Hx'|Hx']; auto.
+  - injection H as <- <- <-. exists []. cbn. auto.
 Qed.
 
-Lemma outer_no_fuel var pol pad vi ms : forall fuel i fs u nx,
-  (Z.to_nat (zlen fs - i) < fuel)%nat -> outer fuel var pol pad vi ms i fs u nx <> Fuel.
+Lemma outer_no_fuel var pol pad ms : forall fuel i fs u nx,
+  (Z.to_nat (zlen fs - i) < fuel)%nat -> outer fuel var pol pad ms i fs u nx <> Fuel.
 Proof.
   induction fuel as [|k IH]; intros i fs u nx Hf; [lia|]. cbn [outer].
   destruct (i <? zlen fs) eqn:El; [|discriminate].
-  destruct (inner var pol pad vi ms i fs u nx) as [[[[i1 fs1] u1] nx1]| | |] eqn:Ei; cbn; try discriminate.
-  - destruct (inner_inv _ _ _ _ _ _ _ _ _ _ _ _ _ [] fs Ei (undoes_refl vi fs)) as (_ & _ & _ & Hm).
+  destruct (inner var pol pad ms i fs u nx) as [[[[i1 fs1] u1] nx1]| | |] eqn:Ei; cbn; try discriminate.
+  - destruct (inner_inv _ _ _ _ _ _ _ _ _ _ _ _ Ei) as (_ & _ & _ & Hm & _).
     apply IH. lia.
-  - exfalso. exact (inner_no_fuel _ _ _ _ _ _ _ _ _ Ei).
+  - exfalso. exact (inner_no_fuel _ _ _ _ _ _ _ _ Ei).
 Qed.
 
-Lemma visit_vol_no_fuel var pol pad vi ms fs u nx : visit_vol var pol pad vi ms fs u nx <> Fuel.
-Proof. unfold visit_vol. apply outer_no_fuel. unfold zlen. lia. Qed.
-
-Lemma visit_vols_no_fuel var pol pad ms : forall vs vi u nx,
-  visit_vols var pol pad ms vi vs u nx <> Fuel.
+Lemma visit_loop_inv var pol pad ms fs nx fs' origs nx' :
+  visit_loop var pol pad ms fs nx = Ok (fs', origs, nx') ->
+  lunwind fs' origs = fs /\ (forall x, In x fs' -> In x fs \/ f_kids x = []).
 Proof.
-  induction vs as [|fs r IH]; intros vi u nx; cbn [visit_vols]; [discriminate|].
-  destruct (visit_vol var pol pad vi ms fs u nx) as [[[fs1 u1] nx1]| | |] eqn:E; cbn; try discriminate.
-  - destruct (visit_vols var pol pad ms (S vi) r u1 nx1) eqn:E2; cbn; try discriminate.
-    exfalso. exact (IH _ _ _ E2).
-  - exfalso. exact (visit_vol_no_fuel _ _ _ _ _ _ _ _ E).
+  unfold visit_loop. intro H. apply outer_inv in H. destruct H as (new & -> & U & F).
+  split; [|exact F]. specialize (U []). rewrite !app_nil_r in *. exact U.
 Qed.
 
-(* Remove.Run, any variant: unwinding everything it pushed gives the tree back *)
-Lemma visit_vols_undo var pol pad ms : forall vs vi u nx vs' u' nx',
-  visit_vols var pol pad ms vi vs u nx = Ok (vs', u', nx') ->
-  exists new, u' = new ++ u /\ length vs' = length vs /\
-    forall pre, length pre = vi -> unwind (pre ++ vs') new = pre ++ vs.
+Lemma visit_loop_no_fuel var pol pad ms fs nx : visit_loop var pol pad ms fs nx <> Fuel.
+Proof. unfold visit_loop. apply outer_no_fuel. unfold zlen. lia. Qed.
+
+(* ---- unwinding everything a descent pushed gives the tree back ---- *)
+
+Definition rec_undo (rec : list volume -> Z -> outcome (list volume * undo * Z)) : Prop :=
+  forall k nx k' new nx', rec k nx = Ok (k', new, nx') -> unwind k' new = k.
+
+Lemma visit_files_undo rec : rec_undo rec -> forall fl fi nx fl' new nx',
+  visit_files rec fi fl nx = Ok (fl', new, nx') ->
+  forall pre, length pre = fi -> funwind (pre ++ fl') new = pre ++ fl.
 Proof.
-  induction vs as [|fs r IH]; intros vi u nx vs' u' nx' H; cbn [visit_vols] in H.
-  - injection H as <- <- <-. exists []. cbn. auto.
-  - destruct (visit_vol var pol pad vi ms fs u nx) as [[[fs1 u1] nx1]| | |] eqn:E; cbn in H; try discriminate.
-    destruct (visit_vols var pol pad ms (S vi) r u1 nx1) as [[[r1 u2] nx2]| | |] eqn:E2; cbn in H; try discriminate.
-    injection H as <- <- <-.
-    unfold visit_vol in E.
-    destruct (outer_inv _ _ _ _ _ _ _ _ _ _ _ _ _ [] fs E (undoes_refl vi fs)) as (new1 & -> & U1).
-    rewrite app_nil_r in U1.
-    destruct (IH _ _ _ _ _ _ E2) as (new2 & -> & Hl & U2).
-    exists (new2 ++ new1). rewrite <- app_assoc. split; [reflexivity|]. split; [cbn; lia|].
-    intros pre Hp. rewrite unwind_app.
+  intro R. induction fl as [|f r IH]; intros fi nx fl' new nx' H pre Hp; cbn [visit_files] in H.
+  - injection H as <- <- <-. reflexivity.
+  - destruct (rec (f_kids f) nx) as [[[k' uk] nx1]| | |] eqn:E1; cbn in H; try discriminate.
+    destruct (visit_files rec (S fi) r nx1) as [[[r' ur] nx2]| | |] eqn:E2; cbn in H; try discriminate.
+    injection H as <- <- <-. rewrite funwind_app.
+    replace (pre ++ with_kids f k' :: r') with ((pre ++ [with_kids f k']) ++ r')
+      by (rewrite <- app_assoc; reflexivity).
+    rewrite (IH _ _ _ _ _ E2) by (rewrite app_length; cbn; lia).
+    rewrite <- app_assoc. cbn [app]. subst fi. rewrite funwind_pfx. cbn [f_kids with_kids].
+    rewrite (R _ _ _ _ _ E1). unfold with_kids at 1. cbn [f_id f_guid f_type f_size f_ui with_kids].
+    fold (with_kids f (f_kids f)). rewrite with_kids_eta. reflexivity.
+Qed.
+
+Lemma visit_one_undo rec var pol pad ms fs nx fs' new nx' : rec_undo rec ->
+  visit_one rec var pol pad ms fs nx = Ok (fs', new, nx') -> funwind fs' new = fs.
+Proof.
+  intros R H. unfold visit_one in H.
+  destruct (visit_loop var pol pad ms fs nx) as [[[fs1 origs] nx1]| | |] eqn:E1; cbn in H; try discriminate.
+  destruct (visit_files rec 0 fs1 nx1) as [[[fl uk] nx2]| | |] eqn:E2; cbn in H; try discriminate.
+  injection H as <- <- <-. rewrite funwind_app.
+  pose proof (visit_files_undo rec R _ _ _ _ _ _ E2 [] eq_refl) as X. cbn [app] in X. rewrite X.
+  rewrite funwind_here. apply visit_loop_inv in E1. tauto.
+Qed.
+
+Lemma visit_seq_undo rec var pol pad ms : rec_undo rec -> forall vs vi nx vs' new nx',
+  visit_seq rec var pol pad ms vi vs nx = Ok (vs', new, nx') ->
+  forall pre, length pre = vi -> unwind (pre ++ vs') new = pre ++ vs.
+Proof.
+  intro R. induction vs as [|fs r IH]; intros vi nx vs' new nx' H pre Hp; cbn [visit_seq] in H.
+  - injection H as <- <- <-. reflexivity.
+  - destruct (visit_one rec var pol pad ms fs nx) as [[[fs1 u1] nx1]| | |] eqn:E1; cbn in H; try discriminate.
+    destruct (visit_seq rec var pol pad ms (S vi) r nx1) as [[[r1 u2] nx2]| | |] eqn:E2; cbn in H; try discriminate.
+    injection H as <- <- <-. rewrite unwind_app.
     replace (pre ++ fs1 :: r1) with ((pre ++ [fs1]) ++ r1) by (rewrite <- app_assoc; reflexivity).
-    rewrite U2 by (rewrite app_length; cbn; lia).
-    rewrite <- app_assoc. cbn [app].
-    rewrite U1 by (subst vi; apply nth_error_mid).
-    subst vi. apply set_nth_app.
+    rewrite (IH _ _ _ _ _ E2) by (rewrite app_length; cbn; lia).
+    rewrite <- app_assoc. cbn [app]. subst vi. rewrite unwind_pfx.
+    rewrite (visit_one_undo _ _ _ _ _ _ _ _ _ _ R E1). reflexivity.
+Qed.
+
+Lemma visit_vols_undo var pol pad ms : forall d, rec_undo (visit_vols d var pol pad ms).
+Proof.
+  induction d as [|d IH]; intros k nx k' new nx' H.
+  - destruct k; cbn in H; [injection H as <- <- <-; reflexivity|discriminate].
+  - destruct k as [|v r]; [cbn in H; injection H as <- <- <-; reflexivity|].
+    cbn [visit_vols] in H. exact (visit_seq_undo _ _ _ _ _ IH _ _ _ _ _ _ H [] eq_refl).
 Qed.
 
 Lemma remove_unwind var pol pad p img nx img' u nx' :
   remove_run var pol pad p img nx = Ok (img', u, nx') -> unwind img' u = img.
+Proof. unfold remove_run. apply visit_vols_undo. Qed.
+
+(* ---- no descent runs out of fuel ---- *)
+
+Lemma visit_files_no_fuel rec : forall fl fi nx,
+  (forall x nx', In x fl -> rec (f_kids x) nx' <> Fuel) -> visit_files rec fi fl nx <> Fuel.
 Proof.
-  unfold remove_run. intro H. apply visit_vols_undo in H.
-  destruct H as (new & -> & _ & U). rewrite app_nil_r. exact (U [] eq_refl).
+  induction fl as [|f r IH]; intros fi nx Hr; cbn [visit_files]; [discriminate|].
+  destruct (rec (f_kids f) nx) as [a| | |] eqn:E1; cbn; try discriminate.
+  - destruct (visit_files rec (S fi) r (snd a)) eqn:E2; cbn; try discriminate.
+    exfalso. apply (IH (S fi) (snd a)); [|exact E2]. intros x nx' Hx. apply Hr. right. exact Hx.
+  - exfalso. apply (Hr f nx); [left; reflexivity|exact E1].
+Qed.
+
+Lemma visit_vols_no_fuel var pol pad ms : forall d vs nx,
+  (vdepth vs < d)%nat -> visit_vols d var pol pad ms vs nx <> Fuel.
+Proof.
+  induction d as [|d IH]; intros vs nx Hd; [lia|].
+  destruct vs as [|v0 r0]; [discriminate|]. cbn [visit_vols].
+  set (vs := v0 :: r0) in *. clearbody vs.
+  assert (G : forall l vi nx, (forall v, In v l -> In v vs) ->
+              visit_seq (visit_vols d var pol pad ms) var pol pad ms vi l nx <> Fuel).
+  { induction l as [|fs r IHl]; intros vi nx1 Hs; cbn [visit_seq]; [discriminate|].
+    assert (Hone : visit_one (visit_vols d var pol pad ms) var pol pad ms fs nx1 <> Fuel).
+    { unfold visit_one.
+      destruct (visit_loop var pol pad ms fs nx1) as [[[fs1 origs] nx2]| | |] eqn:E1; cbn; try discriminate.
+      - destruct (visit_files (visit_vols d var pol pad ms) 0 fs1 nx2) eqn:E2; cbn; try discriminate.
+        exfalso. revert E2. apply visit_files_no_fuel. intros x nx' Hx.
+        apply visit_loop_inv in E1. destruct E1 as [_ F]. destruct (F x Hx) as [Hin|Hk].
+        + apply IH. pose proof (fdepth_le x fs vs Hin (Hs fs (or_introl eq_refl))) as Hle.
+          rewrite fdepth_eq in Hle. lia.
+        + rewrite Hk. destruct d; discriminate.
+      - exfalso. exact (visit_loop_no_fuel _ _ _ _ _ _ E1). }
+    destruct (visit_one _ var pol pad ms fs nx1) as [a| | |] eqn:E1; cbn; try discriminate; [|congruence].
+    destruct (visit_seq _ var pol pad ms (S vi) r (snd a)) eqn:E2; cbn; try discriminate.
+    exfalso. revert E2. apply IHl. intros v Hv. apply Hs. right. exact Hv. }
+  apply G. auto.
 Qed.
 
 Lemma remove_no_fuel var pol pad p img nx : remove_run var pol pad p img nx <> Fuel.
-Proof. unfold remove_run. apply visit_vols_no_fuel. Qed.
+Proof. unfold remove_run. apply visit_vols_no_fuel. lia. Qed.
 
-(* ---- the repaired loop deletes exactly the matched files ---- *)
+(* ---- the repaired loop deletes exactly the matched files, at every depth ---- *)
 
 Definition keep (ms : list Z) (f : file) : bool := negb (memz (f_id f) ms).
 
-Lemma inner_fixed_nomatch pol pad vi ms : forall i fs u nx x,
+Lemma keep_hdr ms : hdr_inv (keep ms).
+Proof. intros f k. reflexivity. Qed.
+
+Lemma inner_fixed_nomatch pol pad ms : forall i fs u nx x,
   idx i fs = Some x -> memz (f_id x) ms = false ->
-  inner fixed pol pad vi ms i fs u nx = Ok (i, fs, u, nx).
+  inner fixed pol pad ms i fs u nx = Ok (i, fs, u, nx).
 Proof.
   induction ms as [|m ms IH]; intros i fs u nx x Hx Hm; cbn [inner]; [reflexivity|].
   rewrite Hx. cbn. cbn in Hm. apply orb_false_iff in Hm. destruct Hm as [Hm1 Hm2].
   rewrite Hm1. eapply IH; eauto.
 Qed.
 
-Lemma inner_fixed_match pol vi ms : forall i a x b u nx,
+Lemma inner_fixed_match pol ms : forall i a x b u nx,
   zlen a = i -> memz (f_id x) ms = true -> f_type x <> fv_filetype_peim ->
-  inner fixed pol false vi ms i (a ++ x :: b) u nx =
-    Ok (i - 1, a ++ b, (vi, a ++ x :: b) :: u, nx).
+  inner fixed pol false ms i (a ++ x :: b) u nx =
+    Ok (i - 1, a ++ b, (a ++ x :: b) :: u, nx).
 Proof.
   induction ms as [|m ms IH]; intros i a x b u nx Hi Hm Ht; cbn [inner]; [discriminate|].
   rewrite (idx_mid a x b i Hi). cbn [of_opt bind].
@@ -349,10 +814,10 @@ Proof.
   - apply IH; auto. cbn in Hm. rewrite Em in Hm. exact Hm.
 Qed.
 
-Lemma outer_fixed_spec pol vi ms : forall todo fuel done u nx,
+Lemma outer_fixed_spec pol ms : forall todo fuel done u nx,
   (length todo < fuel)%nat ->
   (forall x, In x todo -> memz (f_id x) ms = true -> f_type x <> fv_filetype_peim) ->
-  exists u', outer fuel fixed pol false vi ms (zlen done) (done ++ todo) u nx =
+  exists u', outer fuel fixed pol false ms (zlen done) (done ++ todo) u nx =
              Ok (done ++ filter (keep ms) todo, u', nx).
 Proof.
   induction todo as [|x todo IH]; intros fuel done u nx Hf Hp.
@@ -368,7 +833,7 @@ Proof.
         [|reflexivity|exact Em|apply Hp; [left; reflexivity|exact Em]].
       cbn [bind fst snd]. replace (zlen done - 1 + 1) with (zlen done) by lia.
       apply IH; [cbn in Hf; lia|]. intros y Hy. apply Hp. right. exact Hy.
-    + rewrite (inner_fixed_nomatch pol false vi ms (zlen done) (done ++ x :: todo) u nx x)
+    + rewrite (inner_fixed_nomatch pol false ms (zlen done) (done ++ x :: todo) u nx x)
         by (first [exact Em|apply idx_mid; reflexivity]).
       cbn [bind fst snd].
       replace (done ++ x :: todo) with ((done ++ [x]) ++ todo) by (rewrite <- app_assoc; reflexivity).
@@ -378,24 +843,59 @@ Proof.
       exists u'. rewrite E. rewrite <- app_assoc. reflexivity.
 Qed.
 
-Lemma visit_vols_fixed_spec pol ms : forall vs vi u nx,
-  (forall x, In x (concat vs) -> memz (f_id x) ms = true -> f_type x <> fv_filetype_peim) ->
-  exists u', visit_vols fixed pol false ms vi vs u nx = Ok (map (filter (keep ms)) vs, u', nx).
+Lemma visit_loop_fixed pol ms fs nx :
+  (forall x, In x fs -> memz (f_id x) ms = true -> f_type x <> fv_filetype_peim) ->
+  exists u, visit_loop fixed pol false ms fs nx = Ok (filter (keep ms) fs, u, nx).
 Proof.
-  induction vs as [|fs r IH]; intros vi u nx Hp; cbn [visit_vols map].
-  - exists u. reflexivity.
-  - unfold visit_vol.
-    destruct (outer_fixed_spec pol vi ms fs (S (length fs)) [] u nx) as (u1 & E1); [lia| |].
-    { intros x Hx. apply Hp. cbn. apply in_or_app. left. exact Hx. }
-    cbn [app] in E1. change (zlen (@nil file)) with 0 in E1. rewrite E1. cbn [bind fst snd].
-    destruct (IH (S vi) u1 nx) as (u2 & E2).
-    { intros x Hx. apply Hp. cbn. apply in_or_app. right. exact Hx. }
-    rewrite E2. cbn. exists u2. reflexivity.
+  intro Hp. unfold visit_loop.
+  destruct (outer_fixed_spec pol ms fs (S (length fs)) [] [] nx) as (u & E); [lia|exact Hp|].
+  cbn [app] in E. change (zlen (@nil file)) with 0 in E. exists u. exact E.
+Qed.
+
+Lemma visit_files_fixed rec K : forall fl fi nx,
+  (forall x nx', In x fl -> exists u, rec (f_kids x) nx' = Ok (prune K (f_kids x), u, nx')) ->
+  exists u, visit_files rec fi fl nx = Ok (map (prune_file K) fl, u, nx).
+Proof.
+  induction fl as [|f r IH]; intros fi nx Hr; cbn [visit_files map].
+  - exists []. reflexivity.
+  - destruct (Hr f nx (or_introl eq_refl)) as (u1 & E1). rewrite E1. cbn [bind fst snd].
+    destruct (IH (S fi) nx) as (u2 & E2). { intros x nx' Hx. apply Hr. right. exact Hx. }
+    rewrite E2. cbn [bind fst snd]. rewrite prune_file_eq. eexists. reflexivity.
+Qed.
+
+Lemma visit_vols_fixed pol ms : forall d vs nx,
+  (vdepth vs < d)%nat ->
+  (forall x, In x (flat vs) -> memz (f_id x) ms = true -> f_type x <> fv_filetype_peim) ->
+  exists u, visit_vols d fixed pol false ms vs nx = Ok (prune (keep ms) vs, u, nx).
+Proof.
+  induction d as [|d IH]; intros vs nx Hd Hp; [lia|].
+  destruct vs as [|v0 r0]; [exists []; reflexivity|]. cbn [visit_vols].
+  set (vs := v0 :: r0) in *. clearbody vs.
+  assert (G : forall l vi nx, (forall v, In v l -> In v vs) ->
+              exists u, visit_seq (visit_vols d fixed pol false ms) fixed pol false ms vi l nx =
+                        Ok (prune (keep ms) l, u, nx)).
+  { induction l as [|fs r IHl]; intros vi nx1 Hs; cbn [visit_seq prune map].
+    - exists []. reflexivity.
+    - assert (Hfs : In fs vs) by (apply Hs; left; reflexivity).
+      unfold visit_one.
+      destruct (visit_loop_fixed pol ms fs nx1) as (u1 & E1).
+      { intros x Hx. apply Hp. exact (in_flat_self x fs vs Hx Hfs). }
+      rewrite E1. cbn [bind fst snd].
+      destruct (visit_files_fixed (visit_vols d fixed pol false ms) (keep ms) (filter (keep ms) fs) 0 nx1)
+        as (u2 & E2).
+      { intros x nx' Hx. apply filter_In in Hx. destruct Hx as [Hx _]. apply IH.
+        - pose proof (fdepth_le x fs vs Hx Hfs) as Hle. rewrite fdepth_eq in Hle. lia.
+        - intros y Hy. apply Hp. exact (in_flat_kids x fs vs y Hx Hfs Hy). }
+      rewrite E2. cbn [bind fst snd].
+      destruct (IHl (S vi) nx1) as (u3 & E3). { intros v Hv. apply Hs. right. exact Hv. }
+      rewrite E3. cbn [bind fst snd]. rewrite <- (pv_alt (keep ms) fs (keep_hdr ms)).
+      eexists. reflexivity. }
+  apply G. auto.
 Qed.
 
 (* with distinct file objects, "is one of the objects found by GUID g" is
    "has GUID g" *)
-Lemma id_in_found g img f : NoDup (map f_id (concat img)) -> In f (concat img) ->
+Lemma id_in_found g img f : NoDup (map f_id (flat img)) -> In f (flat img) ->
   memz (f_id f) (map f_id (find (guid_pred g) img)) = (f_guid f =? g).
 Proof.
   intros Hn Hf. unfold find. destruct (f_guid f =? g) eqn:Eg.
@@ -403,7 +903,7 @@ Proof.
   - apply memz_false. intro H. apply in_map_iff in H. destruct H as (f' & Hid & Hf').
     apply filter_In in Hf'. destruct Hf' as [Hin Hg]. unfold guid_pred in Hg.
     assert (f' = f).
-    { clear - Hn Hf Hin Hid. induction (concat img) as [|y l IH]; [destruct Hf|].
+    { clear - Hn Hf Hin Hid. induction (flat img) as [|y l IH]; [destruct Hf|].
       cbn in Hn. inversion Hn as [|? ? Hny Hnl]; subst.
       destruct Hf as [->|Hf], Hin as [->|Hin]; auto.
       - exfalso. apply Hny. rewrite <- Hid. apply in_map. exact Hin.
@@ -411,25 +911,25 @@ Proof.
     subst f'. congruence.
 Qed.
 
+Lemma guid_keep_hdr g : hdr_inv (fun f => negb (f_guid f =? g)).
+Proof. intros f k. reflexivity. Qed.
+
+Lemma set_keep_hdr gs : hdr_inv (fun f => negb (memz (f_guid f) gs)).
+Proof. intros f k. reflexivity. Qed.
+
 Lemma remove_fixed_spec pol g img nx :
-  NoDup (map f_id (concat img)) ->
-  (forall f, In f (concat img) -> f_guid f = g -> f_type f <> fv_filetype_peim) ->
+  NoDup (map f_id (flat img)) ->
+  (forall f, In f (flat img) -> f_guid f = g -> f_type f <> fv_filetype_peim) ->
   exists u, remove_run fixed pol false (guid_pred g) img nx = Ok (remove_guid g img, u, nx).
 Proof.
   intros Hn Hp. unfold remove_run.
-  destruct (visit_vols_fixed_spec pol (map f_id (find (guid_pred g) img)) img 0 [] nx) as (u & E).
-  { intros x Hx Hm. rewrite id_in_found in Hm by assumption. apply Hp; [exact Hx|lia]. }
-  exists u. rewrite E. f_equal. f_equal. f_equal. unfold remove_guid.
-  assert (G : forall vs, (forall f, In f (concat vs) -> In f (concat img)) ->
-            map (filter (keep (map f_id (find (guid_pred g) img)))) vs =
-            map (filter (fun f => negb (f_guid f =? g))) vs).
-  { induction vs as [|v r IH]; intro Hs; cbn; [reflexivity|]. f_equal.
-    - apply filter_ext_in'. intros f Hf. unfold keep. rewrite id_in_found; auto.
-      apply Hs. cbn. apply in_or_app. left. exact Hf.
-    - apply IH. intros f Hf. apply Hs. cbn. apply in_or_app. right. exact Hf. }
-  apply G. auto.
+  destruct (visit_vols_fixed pol (map f_id (find (guid_pred g) img)) (S (vdepth img)) img nx) as (u & E).
+  - lia.
+  - intros x Hx Hm. rewrite id_in_found in Hm by assumption. apply Hp; [exact Hx|lia].
+  - exists u. rewrite E. f_equal. f_equal. f_equal. unfold remove_guid.
+    apply prune_ext; [apply keep_hdr|apply guid_keep_hdr|].
+    intros x Hx. unfold keep. rewrite id_in_found; auto.
 Qed.
-
 (* ================= Part 3: the cleaner ================= *)
 
 Lemma concat_map_filter {A} (p : A -> bool) ll : concat (map (filter p) ll) = filter p (concat ll).
@@ -445,23 +945,30 @@ Qed.
 
 Lemma minus_guids_snoc rs g img : remove_guid g (minus_guids rs img) = minus_guids (rs ++ [g]) img.
 Proof.
-  unfold remove_guid, minus_guids. rewrite map_map. apply map_ext. intro v.
-  rewrite filter_filter. apply filter_ext. intro f. rewrite memz_app. cbn.
-  rewrite orb_false_r, negb_orb. reflexivity.
+  unfold remove_guid, minus_guids. rewrite prune_comp by (intros f k; reflexivity).
+  apply prune_ext; try (intros f k; reflexivity).
+  intros x _. rewrite memz_app. cbn. rewrite orb_false_r, negb_orb. reflexivity.
 Qed.
 
 Lemma minus_guids_nil img : minus_guids [] img = img.
+Proof. unfold minus_guids. apply prune_all. reflexivity. Qed.
+
+Lemma prune_file_hdr K f : f_id (prune_file K f) = f_id f /\ f_guid (prune_file K f) = f_guid f /\
+                           f_type (prune_file K f) = f_type f.
+Proof. rewrite prune_file_eq. auto. Qed.
+
+Lemma minus_guids_in rs img f : In f (flat (minus_guids rs img)) ->
+  exists f0, In f0 (flat img) /\ f_guid f = f_guid f0 /\ f_type f = f_type f0.
 Proof.
-  unfold minus_guids. cbn. induction img as [|v r IH]; cbn; [reflexivity|].
-  rewrite IH. f_equal. apply filter_all. auto.
+  unfold minus_guids. intro H. apply flat_prune_in in H. destruct H as (f0 & H0 & ->).
+  exists f0. split; [exact H0|]. split; apply prune_file_hdr.
 Qed.
 
-Lemma minus_guids_in rs img f : In f (concat (minus_guids rs img)) -> In f (concat img).
-Proof. unfold minus_guids. rewrite concat_map_filter_in. tauto. Qed.
-
-Lemma minus_guids_nodup rs img : NoDup (map f_id (concat img)) ->
-  NoDup (map f_id (concat (minus_guids rs img))).
-Proof. intro H. unfold minus_guids. rewrite concat_map_filter. apply NoDup_map_filter. exact H. Qed.
+Lemma minus_guids_nodup rs img : NoDup (map f_id (flat img)) ->
+  NoDup (map f_id (flat (minus_guids rs img))).
+Proof.
+  intro H. unfold minus_guids. eapply subseq_NoDup; [|exact H]. apply ids_prune. intros f k. reflexivity.
+Qed.
 
 Lemma accepted_guids_snoc l e :
   accepted_guids (l ++ [e]) = accepted_guids l ++ (if accepted (answer_of e) then [guid_of e] else []).
@@ -492,8 +999,8 @@ Definition phi (c : cstate) : nat :=
 Lemma step_no_fuel var orc pol c : step var orc pol c <> Fuel.
 Proof.
   unfold step. destruct (c_i c <? length (c_dxes c))%nat.
-  - destruct (nth_error (c_dxes c) (c_i c)) as [g|]; cbn; [|discriminate].
-    destruct (remove_run var pol false (guid_pred g) (c_img c) (c_nx c)) as [r| | |] eqn:E; cbn; try discriminate.
+  - destruct (nth_error (c_dxes c) (c_i c)) as [g|]; cbn [of_opt bind]; [|discriminate].
+    destruct (remove_run var pol false (guid_pred g) (c_img c) (c_nx c)) as [r| | |] eqn:E; cbn [bind]; try discriminate.
     + destruct (snd (orc (length (c_log c)) (fst (fst r))) =? 1); [discriminate|].
       destruct (fst (orc (length (c_log c)) (fst (fst r))) && _); [discriminate|].
       destruct (fst (orc (length (c_log c)) (fst (fst r)))); [discriminate|].
@@ -507,8 +1014,8 @@ Lemma step_phi var orc pol c c' : step var orc pol c = Ok (false, c') -> (phi c'
 Proof.
   unfold step. destruct (c_i c <? length (c_dxes c))%nat eqn:Ei.
   - apply Nat.ltb_lt in Ei.
-    destruct (nth_error (c_dxes c) (c_i c)) as [g|]; cbn; [|discriminate].
-    destruct (remove_run var pol false (guid_pred g) (c_img c) (c_nx c)) as [r| | |]; cbn; try discriminate.
+    destruct (nth_error (c_dxes c) (c_i c)) as [g|]; cbn [of_opt bind]; [|discriminate].
+    destruct (remove_run var pol false (guid_pred g) (c_img c) (c_nx c)) as [r| | |]; cbn [bind]; try discriminate.
     destruct (snd (orc (length (c_log c)) (fst (fst r))) =? 1); [discriminate|].
     destruct (fst (orc (length (c_log c)) (fst (fst r))) && _); [discriminate|].
     destruct (fst (orc (length (c_log c)) (fst (fst r)))).
@@ -547,9 +1054,9 @@ Lemma step_fixed_unreported orc pol c fin c' :
   step fixed orc pol c = Ok (fin, c') -> c_rem c' = c_rem c -> c_img c' = c_img c.
 Proof.
   unfold step. destruct (c_i c <? length (c_dxes c))%nat.
-  - destruct (nth_error (c_dxes c) (c_i c)) as [g|]; cbn; [|discriminate].
+  - destruct (nth_error (c_dxes c) (c_i c)) as [g|]; cbn [of_opt bind]; [|discriminate].
     destruct (remove_run fixed pol false (guid_pred g) (c_img c) (c_nx c)) as [[[img' u] nx']| | |] eqn:E;
-      cbn; try discriminate.
+      cbn [bind fst snd]; try discriminate.
     apply remove_unwind in E.
     destruct (snd (orc (length (c_log c)) img') =? 1).
     { intros H _. injection H as <- <-. cbn. exact E. }
@@ -570,10 +1077,10 @@ Variable pred : file -> bool.
 Variable img0 : image.
 Hypothesis WF : wf_image pred img0 = true.
 
-Lemma wf_nodup : NoDup (map f_id (concat img0)).
+Lemma wf_nodup : NoDup (map f_id (flat img0)).
 Proof. unfold wf_image in WF. apply andb_true_iff in WF. apply nodupz_NoDup. tauto. Qed.
 
-Lemma wf_peim f : In f (concat img0) -> In (f_guid f) (cand_guids pred img0) ->
+Lemma wf_peim f : In f (flat img0) -> In (f_guid f) (cand_guids pred img0) ->
   f_type f <> fv_filetype_peim.
 Proof.
   intros Hf Hg Ht. unfold wf_image in WF. apply andb_true_iff in WF. destruct WF as [_ W].
@@ -620,7 +1127,8 @@ Proof.
   destruct (remove_fixed_spec pol g (c_img c) (c_nx c)) as (u & E).
   - rewrite (inv_img c I). apply minus_guids_nodup. exact wf_nodup.
   - intros f Hf Hfg. rewrite (inv_img c I) in Hf. apply minus_guids_in in Hf.
-    apply wf_peim; [exact Hf|]. rewrite Hfg. apply (inv_dxes c I). eapply nth_error_In. exact Hg.
+    destruct Hf as (f0 & Hf0 & Eg & Et). rewrite Et. apply wf_peim; [exact Hf0|].
+    rewrite <- Eg, Hfg. apply (inv_dxes c I). eapply nth_error_In. exact Hg.
   - rewrite E. cbn [bind fst snd fixed v_cancel v_unwind].
     rewrite (remove_unwind _ _ _ _ _ _ _ _ _ E). reflexivity.
 Qed.
@@ -766,7 +1274,7 @@ Qed.
 
 (* ---- a tester that boots iff a required set of GUIDs is present ---- *)
 
-Lemma present_true g img : present g img = true <-> exists f, In f (concat img) /\ f_guid f = g.
+Lemma present_true g img : present g img = true <-> exists f, In f (flat img) /\ f_guid f = g.
 Proof.
   unfold present. rewrite existsb_exists. split; intros (f & Hf & E); exists f; (split; [exact Hf|lia]).
 Qed.
@@ -775,18 +1283,84 @@ Lemma present_remove_same g img : present g (remove_guid g img) = false.
 Proof.
   destruct (present g (remove_guid g img)) eqn:E; [|reflexivity].
   apply present_true in E. destruct E as (f & Hf & Hg). unfold remove_guid in Hf.
-  apply concat_map_filter_in in Hf. lia.
+  apply flat_prune_keep in Hf. lia.
 Qed.
 
-Lemma present_remove_other g g' img : g <> g' -> present g (remove_guid g' img) = present g img.
+(* the listing that cannot be touched by removing files with a [bad] GUID *)
+Lemma safe_file_in bad : forall f y, In y (safe_file bad f) -> In y (flat_file f).
 Proof.
-  intro Hne. destruct (present g img) eqn:E.
-  - apply present_true in E. destruct E as (f & Hf & Hg). apply present_true. exists f.
-    split; [|exact Hg]. unfold remove_guid. apply concat_map_filter_in. split; [exact Hf|lia].
-  - destruct (present g (remove_guid g' img)) eqn:E2; [|reflexivity].
-    apply present_true in E2. destruct E2 as (f & Hf & Hg). unfold remove_guid in Hf.
-    apply concat_map_filter_in in Hf. destruct Hf as [Hf _].
-    assert (present g img = true) by (apply present_true; eauto). congruence.
+  apply (file_ind' (fun f => forall y, In y (safe_file bad f) -> In y (flat_file f))).
+  intros f IH y Hy. destruct f as [a b c d e k]. cbn [safe_file f_guid f_kids] in Hy.
+  destruct (bad b); [destruct Hy|]. rewrite flat_file_eq. destruct Hy as [<-|Hy]; [left; reflexivity|].
+  right. cbn [f_kids] in *. induction k as [|v r IHr]; [destruct Hy|].
+  inversion IH as [|? ? IHv IHr']; subst. cbn [map concat] in Hy. rewrite flat_cons.
+  apply in_app_or in Hy. apply in_or_app. destruct Hy as [Hy|Hy]; [left|right; apply IHr; assumption].
+  clear - IHv Hy. induction v as [|x q IHq]; [destruct Hy|]. inversion IHv as [|? ? Hx Hq]; subst.
+  cbn [map concat] in Hy. rewrite flat_vol_cons. apply in_app_or in Hy. apply in_or_app.
+  destruct Hy as [Hy|Hy]; [left; apply Hx; exact Hy|right; apply IHq; assumption].
+Qed.
+
+Lemma safe_flat_in bad img y : In y (safe_flat bad img) -> In y (flat img).
+Proof.
+  unfold safe_flat. induction img as [|v r IH]; intro Hy; [destruct Hy|]. cbn [map concat] in Hy.
+  rewrite flat_cons. apply in_app_or in Hy. apply in_or_app.
+  destruct Hy as [Hy|Hy]; [left|right; apply IH; exact Hy].
+  induction v as [|x q IHq]; [destruct Hy|]. cbn [map concat] in Hy. rewrite flat_vol_cons.
+  apply in_app_or in Hy. apply in_or_app.
+  destruct Hy as [Hy|Hy]; [left; eapply safe_file_in; eauto|right; apply IHq; exact Hy].
+Qed.
+
+Lemma safe_present_present bad g img : safe_present bad g img = true -> present g img = true.
+Proof.
+  unfold safe_present. rewrite existsb_exists. intros (f & Hf & E). apply present_true.
+  exists f. split; [eapply safe_flat_in; eauto|lia].
+Qed.
+
+Definition sv (bad : Z -> bool) (v : volume) : list file := concat (map (safe_file bad) v).
+
+Lemma safe_file_eq bad f :
+  safe_file bad f = if bad (f_guid f) then [] else f :: concat (map (sv bad) (f_kids f)).
+Proof. destruct f; reflexivity. Qed.
+
+(* removing files with a bad GUID does not change the GUIDs of the safe listing *)
+Lemma safe_guids_prune_file bad g : bad g = true -> forall f,
+  map f_guid (safe_file bad (prune_file (fun x => negb (f_guid x =? g)) f)) = map f_guid (safe_file bad f).
+Proof.
+  intro Hb. set (K := fun x => negb (f_guid x =? g)).
+  apply (file_ind' (fun f => map f_guid (safe_file bad (prune_file K f)) = map f_guid (safe_file bad f))).
+  intros f IH. rewrite !safe_file_eq, prune_file_eq. cbn [f_guid with_kids f_kids].
+  destruct (bad (f_guid f)); [reflexivity|]. cbn [map]. f_equal.
+  induction (f_kids f) as [|v r IHr]; [reflexivity|]. inversion IH as [|? ? IHv IHr']; subst.
+  cbn [prune map concat]. rewrite !map_app. f_equal; [|apply IHr; exact IHr'].
+  clear - Hb IHv. unfold sv. induction v as [|x q IHq]; [reflexivity|].
+  inversion IHv as [|? ? Hx Hq]; subst. cbn [map filter concat].
+  replace (K (prune_file K x)) with (K x) by (rewrite prune_file_eq; reflexivity).
+  unfold K at 1. destruct (f_guid x =? g) eqn:Eg; cbn [negb].
+  - rewrite (safe_file_eq bad x). replace (f_guid x) with g by lia. rewrite Hb. cbn [app map].
+    apply IHq. exact Hq.
+  - cbn [map concat]. rewrite !map_app. f_equal; [exact Hx|apply IHq; exact Hq].
+Qed.
+
+Lemma safe_guids_prune bad g img : bad g = true ->
+  map f_guid (safe_flat bad (remove_guid g img)) = map f_guid (safe_flat bad img).
+Proof.
+  intro Hb. unfold remove_guid, safe_flat. set (K := fun x => negb (f_guid x =? g)).
+  induction img as [|v r IH]; [reflexivity|]. cbn [prune map concat]. rewrite !map_app.
+  f_equal; [|exact IH].
+  induction v as [|x q IHq]; [reflexivity|]. cbn [map filter concat].
+  replace (K (prune_file K x)) with (K x) by (rewrite prune_file_eq; reflexivity).
+  unfold K at 1. destruct (f_guid x =? g) eqn:Eg; cbn [negb].
+  - rewrite (safe_file_eq bad x). replace (f_guid x) with g by lia. rewrite Hb. cbn [app map]. exact IHq.
+  - cbn [map concat]. rewrite !map_app. f_equal; [apply safe_guids_prune_file; exact Hb|exact IHq].
+Qed.
+
+Lemma safe_present_prune bad g r img : bad g = true ->
+  safe_present bad r (remove_guid g img) = safe_present bad r img.
+Proof.
+  intro Hb. unfold safe_present.
+  assert (E : forall l, existsb (fun f => f_guid f =? r) l = existsb (fun z => z =? r) (map f_guid l)).
+  { induction l as [|x q IH]; [reflexivity|]. cbn. rewrite IH. reflexivity. }
+  rewrite !E, safe_guids_prune by exact Hb. reflexivity.
 Qed.
 
 Section Monotone.
@@ -798,6 +1372,7 @@ Hypothesis WF : wf_image pred img0 = true.
 
 Notation orc := (boots_iff req).
 Definition boots (img : image) : bool := forallb (fun g => present g img) req.
+Definition bad_guid (g : Z) : bool := memz g (cand_guids pred img0) && negb (memz g req).
 
 Lemma orc_eq k img : orc k img = (boots img, 0).
 Proof. reflexivity. Qed.
@@ -805,19 +1380,23 @@ Proof. reflexivity. Qed.
 Record MInv (c : cstate) : Prop := mkMInv {
   m_cover : forall g, In g (cand_guids pred img0) -> In g (c_rem c) \/ In g (c_dxes c);
   m_prefix : c_more c = false -> forall g, In g (firstn (c_i c) (c_dxes c)) -> In g req;
-  m_boots : boots (c_img c) = true;
+  m_safe : forall r, In r req -> safe_present bad_guid r (c_img c) = true;
   m_rem : forall g, In g (c_rem c) -> ~ In g req
 }.
 
-(* removing g from a booting image: it still boots iff g is not required *)
-Lemma boots_remove g img : boots img = true -> boots (remove_guid g img) = negb (memz g req).
+(* removing candidate g from an image whose required files are all safe:
+   it still boots iff g is not required *)
+Lemma boots_remove g img : In g (cand_guids pred img0) ->
+  (forall r, In r req -> safe_present bad_guid r img = true) ->
+  boots (remove_guid g img) = negb (memz g req).
 Proof.
-  intro Hb. unfold boots in *. rewrite forallb_forall in Hb.
+  intros Hc Hs. unfold boots.
   destruct (memz g req) eqn:Em; cbn [negb].
   - apply memz_true in Em. destruct (forallb _ req) eqn:E; [|reflexivity].
     rewrite forallb_forall in E. specialize (E g Em). rewrite present_remove_same in E. discriminate.
-  - apply memz_false in Em. apply forallb_forall. intros r Hr.
-    rewrite present_remove_other; [apply Hb; exact Hr|]. intro; subst; auto.
+  - apply forallb_forall. intros r Hr. apply (safe_present_present bad_guid).
+    rewrite safe_present_prune; [apply Hs; exact Hr|].
+    unfold bad_guid. rewrite Em. apply memz_true in Hc. rewrite Hc. reflexivity.
 Qed.
 
 Lemma mono_step c fin c' : Inv orc pred img0 c -> MInv c ->
@@ -828,11 +1407,13 @@ Proof.
   destruct (c_i c <? length (c_dxes c))%nat eqn:Ei.
   - apply Nat.ltb_lt in Ei.
     destruct (nth_error (c_dxes c) (c_i c)) as [g|] eqn:Eg; [|apply nth_error_None in Eg; lia].
+    assert (Hc : In g (cand_guids pred img0))
+      by (apply (inv_dxes _ _ _ _ I); eapply nth_error_In; exact Eg).
     rewrite (step_fixed_iter orc pol pred img0 WF c g I Eg) in H. cbn zeta in H.
     rewrite !orc_eq in H. cbn [fst snd] in H.
     change (0 =? 1) with false in H. change (0 =? 0) with true in H. cbn [negb] in H.
     rewrite andb_false_r in H.
-    rewrite (boots_remove g (c_img c) (m_boots c M)) in H.
+    rewrite (boots_remove g (c_img c) Hc (m_safe c M)) in H.
     destruct (memz g req) eqn:Em; cbn [negb] in H.
     + (* rejected: g is required *)
       injection H as <- <-. split; [|discriminate]. apply memz_true in Em.
@@ -840,10 +1421,13 @@ Proof.
       * exact (m_cover c M).
       * intros Hm x Hx. rewrite (firstn_succ_nth _ _ _ Eg) in Hx. apply in_app_or in Hx.
         destruct Hx as [Hx|[<-|[]]]; [exact (m_prefix c M Hm x Hx)|exact Em].
-      * exact (m_boots c M).
+      * exact (m_safe c M).
       * exact (m_rem c M).
     + (* accepted *)
-      injection H as <- <-. split; [|discriminate]. apply memz_false in Em.
+      injection H as <- <-. split; [|discriminate].
+      assert (Hb : bad_guid g = true).
+      { unfold bad_guid. rewrite Em. apply memz_true in Hc. rewrite Hc. reflexivity. }
+      apply memz_false in Em.
       constructor; cbn [c_img c_rem c_dxes c_i c_more].
       * intros x Hx. destruct (m_cover c M x Hx) as [Hr|Hd].
         -- left. apply in_or_app. left. exact Hr.
@@ -853,13 +1437,13 @@ Proof.
            ++ left. apply in_or_app. right. left. reflexivity.
            ++ right. apply in_or_app. right. exact Hd.
       * discriminate.
-      * rewrite (boots_remove g (c_img c) (m_boots c M)). apply negb_true_iff. apply memz_false. exact Em.
+      * intros r Hr. rewrite safe_present_prune by exact Hb. apply (m_safe c M). exact Hr.
       * intros x Hx. apply in_app_or in Hx. destruct Hx as [Hx|[<-|[]]]; [exact (m_rem c M x Hx)|exact Em].
   - unfold step in H. rewrite Ei in H. apply Nat.ltb_ge in Ei. destruct (c_more c) eqn:Emore.
     + injection H as <- <-. split; [|discriminate]. constructor; cbn [c_img c_rem c_dxes c_i c_more].
       * exact (m_cover c M).
       * intros _ x [].
-      * exact (m_boots c M).
+      * exact (m_safe c M).
       * exact (m_rem c M).
     + injection H as <- <-. split; [exact M|]. intros _. split; [exact Emore|exact Ei].
 Qed.
@@ -890,7 +1474,8 @@ Proof.
   - apply IH; [eapply step_inv; eauto|exact M'].
 Qed.
 
-Lemma mono_complete nx : boots img0 = true -> cand_guids pred img0 <> [] ->
+Lemma mono_complete nx :
+  req_safe pred req img0 = true -> cand_guids pred img0 <> [] ->
   exists c, dxe_clean fixed orc pol pred img0 nx = Ok c /\
     (forall g, In g (cand_guids pred img0) -> ~ In g req -> In g (c_rem c)) /\
     (forall g, In g (c_rem c) -> ~ In g req) /\
@@ -906,20 +1491,21 @@ Proof.
   { constructor; cbn [c_img c_rem c_dxes c_i c_more c0].
     - intros x Hx. right. rewrite <- E. exact Hx.
     - discriminate.
-    - exact Hb.
+    - intros r Hr. unfold req_safe in Hb. rewrite forallb_forall in Hb. apply Hb. exact Hr.
     - intros x []. }
   destruct (mono_run (clean_fuel (length (c_dxes c0))) c0 I M) as [H|(cf & H & Mf & Hm & Hi)];
     [exfalso; exact (NF H)|].
-  exists cf. split; [exact H|]. split; [|split; [exact (m_rem cf Mf)|exact (m_boots cf Mf)]].
-  intros x Hx Hnr. rewrite <- E in Hx. destruct (m_cover cf Mf x Hx) as [Hr|Hd]; [exact Hr|].
-  exfalso. apply Hnr. apply (m_prefix cf Mf Hm). rewrite firstn_all2 by exact Hi. exact Hd.
+  exists cf. split; [exact H|]. split; [|split; [exact (m_rem cf Mf)|]].
+  - intros x Hx Hnr. rewrite <- E in Hx. destruct (m_cover cf Mf x Hx) as [Hr|Hd]; [exact Hr|].
+    exfalso. apply Hnr. apply (m_prefix cf Mf Hm). rewrite firstn_all2 by exact Hi. exact Hd.
+  - unfold boots. apply forallb_forall. intros r Hr. apply (safe_present_present bad_guid).
+    apply (m_safe cf Mf). exact Hr.
 Qed.
 
 End Monotone.
-
 (* ================= Part 4: the unrepaired code ================= *)
 
-Definition wF (id g : Z) : file := mkFile id g fv_filetype_driver 32 None.
+Definition wF (id g : Z) : file := mkFile id g fv_filetype_driver 32 None [].
 Definition is_driver : file -> bool := type_pred fv_filetype_driver.
 Definition t_accept : testres := (true, 0).
 Definition t_reject : testres := (false, 0).
@@ -951,7 +1537,7 @@ Lemma asis_cancel_unreported :
 Proof. eexists. split; [vm_compute; reflexivity|]. split; reflexivity. Qed.
 
 Lemma asis_monotone_panic :
-  boots [2] [[wF 0 1]; [wF 1 1; wF 2 2]] = true /\
+  req_safe is_driver [2] [[wF 0 1]; [wF 1 1; wF 2 2]] = true /\
   dxe_clean asis (boots_iff [2]) 255 is_driver [[wF 0 1]; [wF 1 1; wF 2 2]] 3 = Panic P_INDEX.
 Proof. split; vm_compute; reflexivity. Qed.
 
@@ -969,3 +1555,15 @@ Lemma only_cancel_missing :
   exists c, dxe_clean (mkVar true true false) (script_oracle [t_cancel]) 255 is_driver w_dup 4 = Ok c /\
             c_rem c = [] /\ c_img c <> w_dup.
 Proof. eexists. split; [vm_compute; reflexivity|]. split; [reflexivity|discriminate]. Qed.
+
+(* nesting: driver 1 holds a volume with drivers 2 and 3 (3 also in the outer volume) *)
+Definition wN (id g : Z) (k : list volume) : file := mkFile id g fv_filetype_driver 32 None k.
+Definition w_nest : image := [[wN 0 1 [[wF 1 3; wF 2 2]]; wF 3 3]; [wF 4 5]].
+
+(* pinned code: rejecting the removal of GUID 3 (nested and outer occurrence)
+   restores only the nested volume *)
+Lemma asis_nested_not_undone :
+  wf_image is_driver w_nest = true /\
+  exists c, dxe_clean asis (script_oracle []) 255 is_driver w_nest 5 = Ok c /\
+            c_rem c = [] /\ c_img c = [[wN 0 1 [[wF 1 3; wF 2 2]]]; [wF 4 5]].
+Proof. split; [vm_compute; reflexivity|]. eexists. split; [vm_compute; reflexivity|]. split; reflexivity. Qed.
